@@ -250,28 +250,78 @@ Proof.
   destruct ux, uy; cbn [enc bitsof q_rem bind] in *; apply G; auto.
 Qed.
 
-Lemma cmp_exact : forall ci cf ux x uy y, okv ux x -> okv uy y ->
+(* ---- comparisons, truth, equality: exact for every Natural below 2^64 (after findings/D90) ---- *)
+(* the WIDE value domain: a Natural anywhere below 2^64, an Integer inside (-2^63, 2^63) *)
+Definition okw (u : bool) (z : Z) : Prop := if u then 0 <= z < 18446744073709551616 else in63 z.
+Lemma okv_okw : forall u z, okv u z -> okw u z.
+Proof. intros u z [Hz Hu]. unfold okw, in63 in *. destruct u; [specialize (Hu eq_refl); lia|exact Hz]. Qed.
+
+(* the five comparison operators read the three-way result the way they read two numbers *)
+Definition cmp_like (ci : Z -> Z -> bool) : Prop := forall x y, ci (cmp_int (x ?= y)) 0 = ci x y.
+Lemma cmp_like_ltb : cmp_like Z.ltb.
+Proof. intros x y. destruct (Z.compare_spec x y); cbn [cmp_int]; symmetry; [apply Z.ltb_ge|apply Z.ltb_lt|apply Z.ltb_ge]; lia. Qed.
+Lemma cmp_like_leb : cmp_like Z.leb.
+Proof. intros x y. destruct (Z.compare_spec x y); cbn [cmp_int]; symmetry; [apply Z.leb_le|apply Z.leb_le|apply Z.leb_gt]; lia. Qed.
+Lemma cmp_like_gtb : cmp_like Z.gtb.
+Proof. intros x y. rewrite !Z.gtb_ltb. destruct (Z.compare_spec x y); cbn [cmp_int]; symmetry; [apply Z.ltb_ge|apply Z.ltb_ge|apply Z.ltb_lt]; lia. Qed.
+Lemma cmp_like_geb : cmp_like Z.geb.
+Proof. intros x y. rewrite !Z.geb_leb. destruct (Z.compare_spec x y); cbn [cmp_int]; symmetry; [apply Z.leb_le|apply Z.leb_gt|apply Z.leb_le]; lia. Qed.
+Lemma cmp_like_eqb : cmp_like Z.eqb.
+Proof. intros x y. destruct (Z.compare_spec x y); cbn [cmp_int]; symmetry; [apply Z.eqb_eq|apply Z.eqb_neq|apply Z.eqb_neq]; lia. Qed.
+
+Lemma wrapZ_nonneg : forall z, 0 <= z < 9223372036854775808 -> wrapZ z = Z.to_N z.
+Proof. intros z H. apply N2Z.inj. rewrite wrapZ_spec, Z2N.id by lia. apply Z.mod_small. lia. Qed.
+
+(* compareWhole compares by value *)
+Lemma compare_whole_enc : forall ux x uy y, okw ux x -> okw uy y ->
+  compare_whole (enc ux x) (enc uy y) = (x ?= y).
+Proof.
+  intros ux x uy y Hx Hy. unfold compare_whole, okw, in63 in *.
+  assert (Sg : forall z, -9223372036854775808 < z < 9223372036854775808 -> signed (wrapZ z) = z) by (intros; apply signed_wrapZ; assumption).
+  destruct ux, uy; cbn [enc whole_negative whole_bits].
+  - cbn [Bool.eqb negb]. rewrite <- Z2N.inj_compare by lia. reflexivity.
+  - rewrite (Sg y Hy). destruct (y <? 0) eqn:E; cbn [Bool.eqb negb].
+    + apply Z.ltb_lt in E. symmetry. apply Z.compare_gt_iff. lia.
+    + apply Z.ltb_ge in E. rewrite wrapZ_nonneg by lia. rewrite <- Z2N.inj_compare by lia. reflexivity.
+  - rewrite (Sg x Hx). destruct (x <? 0) eqn:E; cbn [Bool.eqb negb].
+    + apply Z.ltb_lt in E. symmetry. apply Z.compare_lt_iff. lia.
+    + apply Z.ltb_ge in E. rewrite wrapZ_nonneg by lia. rewrite <- Z2N.inj_compare by lia. reflexivity.
+  - rewrite (Sg x Hx), (Sg y Hy).
+    destruct (x <? 0) eqn:Ex, (y <? 0) eqn:Ey; cbn [Bool.eqb negb].
+    + reflexivity.
+    + apply Z.ltb_lt in Ex. apply Z.ltb_ge in Ey. symmetry. apply Z.compare_lt_iff. lia.
+    + apply Z.ltb_ge in Ex. apply Z.ltb_lt in Ey. symmetry. apply Z.compare_gt_iff. lia.
+    + apply Z.ltb_ge in Ex. apply Z.ltb_ge in Ey. rewrite !wrapZ_nonneg by lia. rewrite <- Z2N.inj_compare by lia. reflexivity.
+Qed.
+
+Lemma cmp_exact_wide : forall ci cf ux x uy y, cmp_like ci -> okw ux x -> okw uy y ->
   q_cmp ci cf (enc ux x) (enc uy y) = Ok (ci x y).
 Proof.
-  intros ci cf ux x uy y Hx Hy.
-  destruct (enc_bits _ _ Hx) as (_ & _ & Sx). destruct (enc_bits _ _ Hy) as (_ & _ & Sy).
-  destruct ux, uy; cbn [enc bitsof q_cmp] in *; rewrite Sx, Sy; reflexivity.
+  intros ci cf ux x uy y Hci Hx Hy. pose proof (compare_whole_enc ux x uy y Hx Hy) as Hc.
+  destruct ux, uy; cbn [enc q_cmp] in *; rewrite Hc, Hci; reflexivity.
 Qed.
+Lemma cmp_exact : forall ci cf ux x uy y, cmp_like ci -> okv ux x -> okv uy y ->
+  q_cmp ci cf (enc ux x) (enc uy y) = Ok (ci x y).
+Proof. intros. apply cmp_exact_wide; [assumption|apply okv_okw; assumption|apply okv_okw; assumption]. Qed.
 
-Lemma true_exact : forall u z, okv u z -> q_true (enc u z) = Ok (0 <? z).
+Lemma true_exact_wide : forall u z, okw u z -> q_true (enc u z) = Ok (0 <? z).
 Proof.
-  intros u z H. destruct (enc_bits _ _ H) as (_ & _ & S). destruct H as [Hz Hu].
-  destruct u; cbn [enc bitsof q_true] in *.
-  - specialize (Hu eq_refl). f_equal. destruct (0 <? z) eqn:E; [apply N.ltb_lt; lia|apply N.ltb_ge; lia].
-  - rewrite S. reflexivity.
+  intros u z H. unfold okw, in63 in H. destruct u; cbn [enc q_true].
+  - f_equal. destruct (0 <? z) eqn:E; [apply N.ltb_lt; lia|apply N.ltb_ge; lia].
+  - rewrite signed_wrapZ by exact H. reflexivity.
 Qed.
+Lemma true_exact : forall u z, okv u z -> q_true (enc u z) = Ok (0 <? z).
+Proof. intros u z H. apply true_exact_wide, okv_okw, H. Qed.
 
-Lemma equal_exact : forall e ux x uy y, okv ux x -> okv uy y ->
+Lemma equal_exact_wide : forall e ux x uy y, okw ux x -> okw uy y ->
   is_equal e (enc ux x) (enc uy y) = Ok (of_bool (x =? y)).
 Proof.
-  intros e ux x uy y Hx Hy. pose proof (cmp_exact Z.eqb f_eq _ _ _ _ Hx Hy) as H.
+  intros e ux x uy y Hx Hy. pose proof (cmp_exact_wide Z.eqb f_eq _ _ _ _ cmp_like_eqb Hx Hy) as H.
   unfold is_equal. destruct ux, uy; cbn [enc eq_classify bind eq_force_number] in *; unfold q_eq; rewrite H; reflexivity.
 Qed.
+Lemma equal_exact : forall e ux x uy y, okv ux x -> okv uy y ->
+  is_equal e (enc ux x) (enc uy y) = Ok (of_bool (x =? y)).
+Proof. intros. apply equal_exact_wide; apply okv_okw; assumption. Qed.
 
 (* QExpression::PowerOf computes the power modulo 2^64 *)
 Lemma powerof_spec : forall x p, (x < two64)%N ->
@@ -366,35 +416,47 @@ Definition in63b (z : Z) : bool := (-9223372036854775808 <? z) && (z <? 92233720
 Definition b2z (b : bool) : Z := if b then 1 else 0.
 Definition zret (z : Z) (u : bool) : option (Z * bool) := if in63b z then Some (z, u) else None.
 
+(* one operator on two exact values *)
+Definition zdispatch (op : N) (x : Z) (ux : bool) (y : Z) (uy : bool) : option (Z * bool) :=
+  if (op =? op_Exponent)%N then
+    (if y <? 0 then None
+     else if x =? 0 then Some (0, true)          (* the code's 0^0 = 0 included *)
+     else if y =? 0 then Some (1, true)
+     else zret (x ^ y) (negb ((x <? 0) && Z.odd y)))
+  else if (op =? op_Remainder)%N then (if y =? 0 then None else Some (Z.rem x y, false))
+  else if (op =? op_Multiplication)%N then zret (x * y) (ux && uy)
+  else if (op =? op_Division)%N then None
+  else if (op =? op_Addition)%N then zret (x + y) (ux && uy)
+  else if (op =? op_Subtraction)%N then zret (x - y) (ux && uy && (y <=? x))
+  else if (op =? op_BitwiseAnd)%N then None
+  else if (op =? op_BitwiseOr)%N then None
+  else if (op =? op_Less)%N then Some (b2z (x <? y), true)
+  else if (op =? op_LessOrEqual)%N then Some (b2z (x <=? y), true)
+  else if (op =? op_Greater)%N then Some (b2z (x >? y), true)
+  else if (op =? op_GreaterOrEqual)%N then Some (b2z (x >=? y), true)
+  else if (op =? op_And)%N then Some (b2z ((0 <? x) && (0 <? y)), true)
+  else if (op =? op_Or)%N then Some (b2z ((0 <? x) || (0 <? y)), true)
+  else if (op =? op_Equal)%N then Some (b2z (x =? y), true)
+  else if (op =? op_NotEqual)%N then Some (b2z (negb (x =? y)), true)
+  else None.
+(* + - * % ^ (and / & |, outside the fragment anyway) *)
+Definition is_arith (op : N) : bool :=
+  ((op =? op_Exponent) || (op =? op_Remainder) || (op =? op_Multiplication) || (op =? op_Division) ||
+   (op =? op_Addition) || (op =? op_Subtraction) || (op =? op_BitwiseAnd) || (op =? op_BitwiseOr))%N.
+
+(* THE GUARD (after findings/D90).  Leaves: a Natural anywhere below 2^64, an Integer inside
+   (-2^63, 2^63).  Operands and results of + - * % ^ lie inside (-2^63, 2^63).  Operands of the
+   comparisons, of && and ||, and of == and != may be any Natural below 2^64 or Integer inside
+   (-2^63, 2^63); their result is the Natural 0 or 1. *)
 Fixpoint zspec (t : tree) : option (Z * bool) :=
   match t with
-  | Leaf (ONum (QNat b)) => if (b <? two63)%N then Some (Z.of_N b, true) else None
+  | Leaf (ONum (QNat b)) => if (b <? two64)%N then Some (Z.of_N b, true) else None
   | Leaf (ONum (QInt b)) => if (b <? two64)%N && in63b (signed b) then Some (signed b, false) else None
   | Leaf _ => None
   | Node op l r =>
     match zspec l, zspec r with
     | Some (x, ux), Some (y, uy) =>
-      if (op =? op_Exponent)%N then
-        (if y <? 0 then None
-         else if x =? 0 then Some (0, true)          (* the code's 0^0 = 0 included *)
-         else if y =? 0 then Some (1, true)
-         else zret (x ^ y) (negb ((x <? 0) && Z.odd y)))
-      else if (op =? op_Remainder)%N then (if y =? 0 then None else Some (Z.rem x y, false))
-      else if (op =? op_Multiplication)%N then zret (x * y) (ux && uy)
-      else if (op =? op_Division)%N then None
-      else if (op =? op_Addition)%N then zret (x + y) (ux && uy)
-      else if (op =? op_Subtraction)%N then zret (x - y) (ux && uy && (y <=? x))
-      else if (op =? op_BitwiseAnd)%N then None
-      else if (op =? op_BitwiseOr)%N then None
-      else if (op =? op_Less)%N then Some (b2z (x <? y), true)
-      else if (op =? op_LessOrEqual)%N then Some (b2z (x <=? y), true)
-      else if (op =? op_Greater)%N then Some (b2z (x >? y), true)
-      else if (op =? op_GreaterOrEqual)%N then Some (b2z (x >=? y), true)
-      else if (op =? op_And)%N then Some (b2z ((0 <? x) && (0 <? y)), true)
-      else if (op =? op_Or)%N then Some (b2z ((0 <? x) || (0 <? y)), true)
-      else if (op =? op_Equal)%N then Some (b2z (x =? y), true)
-      else if (op =? op_NotEqual)%N then Some (b2z (negb (x =? y)), true)
-      else None
+      if is_arith op && negb (in63b x && in63b y) then None else zdispatch op x ux y uy
     | _, _ => None
     end
   end.
@@ -418,25 +480,17 @@ Proof.
   intros b Hb. apply N2Z.inj. rewrite wrapZ_spec. destruct (signed_spec b Hb) as [H _]. exact H.
 Qed.
 
-Theorem integer_exact : forall e sub t z u, zspec t = Some (z, u) ->
-  okv u z /\
-  forall c, tree_eval_ctx (fun ctx o => leaf_value e sub ctx op_NoOp o) (apply_op e) c t = Ok (enc u z).
+Lemma okw_narrow : forall u z, okw u z -> in63b z = true -> okv u z.
+Proof. intros u z H Hb. apply in63b_spec in Hb. split; [exact Hb|]. intros ->. unfold okw in H. lia. Qed.
+Lemma okw_b2z : forall b, okw true (b2z b).
+Proof. intros [|]; unfold okw; cbn; lia. Qed.
+
+(* one operator, both operands (and the result) inside (-2^63, 2^63) *)
+Lemma node_exact_narrow : forall e op x ux y uy z u (T : N -> outcome qval),
+  (forall c, T c = apply_op e op (enc ux x) (enc uy y)) -> okv ux x -> okv uy y ->
+  zdispatch op x ux y uy = Some (z, u) -> okv u z /\ forall c, T c = Ok (enc u z).
 Proof.
-  intros e sub. induction t as [o|op l IHl r IHr]; intros z u H.
-  - destruct o as [v| | |]; try discriminate H. destruct v as [b|b| | |]; try discriminate H; cbn [zspec] in H.
-    + destruct (b <? two63)%N eqn:E; [|discriminate]. inversion H; subst. apply N.ltb_lt in E.
-      assert (Z.of_N b < 9223372036854775808) by (rewrite <- two63_Z; lia).
-      split; [split; [unfold in63|]; lia|]. intros c. cbn [tree_eval_ctx leaf_value enc]. rewrite N2Z.id. reflexivity.
-    + destruct ((b <? two64)%N && in63b (signed b)) eqn:E; [|discriminate]. inversion H; subst.
-      apply andb_true_iff in E. destruct E as [E1 E2]. apply N.ltb_lt in E1.
-      split; [split; [apply in63b_spec; exact E2|discriminate]|].
-      intros c. cbn [tree_eval_ctx leaf_value enc]. rewrite wrapZ_signed by exact E1. reflexivity.
-  - cbn [zspec] in H.
-    destruct (zspec l) as [[x ux]|]; [|discriminate]. destruct (zspec r) as [[y uy]|]; [|discriminate].
-    destruct (IHl _ _ eq_refl) as [Hx Hl]. destruct (IHr _ _ eq_refl) as [Hy Hr].
-    assert (Hev : forall c, tree_eval_ctx (fun ctx o => leaf_value e sub ctx op_NoOp o) (apply_op e) c (Node op l r)
-                  = apply_op e op (enc ux x) (enc uy y)).
-    { intros c. cbn [tree_eval_ctx]. rewrite Hl, Hr. reflexivity. }
+  intros e op x ux y uy z u T Hev Hx Hy H. unfold zdispatch in H.
     assert (Hux : ux = true -> 0 <= x) by (destruct Hx; auto).
     assert (Huy : uy = true -> 0 <= y) by (destruct Hy; auto).
     unfold apply_op in Hev.
@@ -481,13 +535,13 @@ Proof.
     destruct (op =? op_BitwiseAnd)%N; [discriminate|].
     destruct (op =? op_BitwiseOr)%N; [discriminate|].
     destruct (op =? op_Less)%N.
-    { inversion H; subst. split; [apply okv_b2z|]. intros c. rewrite Hev. unfold q_lt. rewrite cmp_exact by assumption. cbn [bind]. rewrite enc_b2z. reflexivity. }
+    { inversion H; subst. split; [apply okv_b2z|]. intros c. rewrite Hev. unfold q_lt. rewrite cmp_exact by (assumption || apply cmp_like_ltb). cbn [bind]. rewrite enc_b2z. reflexivity. }
     destruct (op =? op_LessOrEqual)%N.
-    { inversion H; subst. split; [apply okv_b2z|]. intros c. rewrite Hev. unfold q_le. rewrite cmp_exact by assumption. cbn [bind]. rewrite enc_b2z. reflexivity. }
+    { inversion H; subst. split; [apply okv_b2z|]. intros c. rewrite Hev. unfold q_le. rewrite cmp_exact by (assumption || apply cmp_like_leb). cbn [bind]. rewrite enc_b2z. reflexivity. }
     destruct (op =? op_Greater)%N.
-    { inversion H; subst. split; [apply okv_b2z|]. intros c. rewrite Hev. unfold q_gt. rewrite cmp_exact by assumption. cbn [bind]. rewrite enc_b2z. reflexivity. }
+    { inversion H; subst. split; [apply okv_b2z|]. intros c. rewrite Hev. unfold q_gt. rewrite cmp_exact by (assumption || apply cmp_like_gtb). cbn [bind]. rewrite enc_b2z. reflexivity. }
     destruct (op =? op_GreaterOrEqual)%N.
-    { inversion H; subst. split; [apply okv_b2z|]. intros c. rewrite Hev. unfold q_ge. rewrite cmp_exact by assumption. cbn [bind]. rewrite enc_b2z. reflexivity. }
+    { inversion H; subst. split; [apply okv_b2z|]. intros c. rewrite Hev. unfold q_ge. rewrite cmp_exact by (assumption || apply cmp_like_geb). cbn [bind]. rewrite enc_b2z. reflexivity. }
     destruct (op =? op_And)%N.
     { inversion H; subst. split; [apply okv_b2z|]. intros c. rewrite Hev. rewrite !true_exact by assumption. cbn [bind]. rewrite enc_b2z. reflexivity. }
     destruct (op =? op_Or)%N.
@@ -497,6 +551,61 @@ Proof.
     destruct (op =? op_NotEqual)%N; [|discriminate].
     inversion H; subst. split; [apply okv_b2z|]. intros c. rewrite Hev. rewrite equal_exact by assumption.
     cbn [bind]. destruct (x =? y); reflexivity.
+Qed.
+
+(* a comparison, && / ||, == / != : operands in the wide domain *)
+Lemma node_exact_wide : forall e op x ux y uy z u, is_arith op = false -> okw ux x -> okw uy y ->
+  zdispatch op x ux y uy = Some (z, u) -> okw u z /\ apply_op e op (enc ux x) (enc uy y) = Ok (enc u z).
+Proof.
+  intros e op x ux y uy z u Ha Hx Hy H. unfold zdispatch in H. unfold is_arith in Ha. unfold apply_op.
+  repeat (apply orb_false_iff in Ha; destruct Ha as [Ha ?]).
+  repeat match goal with E : (op =? _)%N = false |- _ => rewrite E in *; clear E end.
+  destruct (op =? op_Less)%N.
+  { inversion H; subst. split; [apply okw_b2z|]. unfold q_lt. rewrite cmp_exact_wide by (assumption || apply cmp_like_ltb). cbn [bind]. rewrite enc_b2z. reflexivity. }
+  destruct (op =? op_LessOrEqual)%N.
+  { inversion H; subst. split; [apply okw_b2z|]. unfold q_le. rewrite cmp_exact_wide by (assumption || apply cmp_like_leb). cbn [bind]. rewrite enc_b2z. reflexivity. }
+  destruct (op =? op_Greater)%N.
+  { inversion H; subst. split; [apply okw_b2z|]. unfold q_gt. rewrite cmp_exact_wide by (assumption || apply cmp_like_gtb). cbn [bind]. rewrite enc_b2z. reflexivity. }
+  destruct (op =? op_GreaterOrEqual)%N.
+  { inversion H; subst. split; [apply okw_b2z|]. unfold q_ge. rewrite cmp_exact_wide by (assumption || apply cmp_like_geb). cbn [bind]. rewrite enc_b2z. reflexivity. }
+  destruct (op =? op_And)%N.
+  { inversion H; subst. split; [apply okw_b2z|]. rewrite !true_exact_wide by assumption. cbn [bind]. rewrite enc_b2z. reflexivity. }
+  destruct (op =? op_Or)%N.
+  { inversion H; subst. split; [apply okw_b2z|]. rewrite !true_exact_wide by assumption. cbn [bind]. rewrite enc_b2z. reflexivity. }
+  destruct (op =? op_Equal)%N.
+  { inversion H; subst. split; [apply okw_b2z|]. rewrite equal_exact_wide by assumption. rewrite enc_b2z. reflexivity. }
+  destruct (op =? op_NotEqual)%N; [|discriminate].
+  inversion H; subst. split; [apply okw_b2z|]. rewrite equal_exact_wide by assumption.
+  cbn [bind]. destruct (x =? y); reflexivity.
+Qed.
+
+Theorem integer_exact : forall e sub t z u, zspec t = Some (z, u) ->
+  okw u z /\
+  forall c, tree_eval_ctx (fun ctx o => leaf_value e sub ctx op_NoOp o) (apply_op e) c t = Ok (enc u z).
+Proof.
+  intros e sub. induction t as [o|op l IHl r IHr]; intros z u H.
+  - destruct o as [v| | |]; try discriminate H. destruct v as [b|b| | |]; try discriminate H; cbn [zspec] in H.
+    + destruct (b <? two64)%N eqn:E; [|discriminate]. inversion H; subst. apply N.ltb_lt in E.
+      assert (Z.of_N b < 18446744073709551616) by (rewrite <- two64_Z; lia).
+      split; [unfold okw; lia|]. intros c. cbn [tree_eval_ctx leaf_value enc]. rewrite N2Z.id. reflexivity.
+    + destruct ((b <? two64)%N && in63b (signed b)) eqn:E; [|discriminate]. inversion H; subst.
+      apply andb_true_iff in E. destruct E as [E1 E2]. apply N.ltb_lt in E1.
+      split; [apply in63b_spec; exact E2|].
+      intros c. cbn [tree_eval_ctx leaf_value enc]. rewrite wrapZ_signed by exact E1. reflexivity.
+  - cbn [zspec] in H.
+    destruct (zspec l) as [[x ux]|]; [|discriminate]. destruct (zspec r) as [[y uy]|]; [|discriminate].
+    destruct (IHl _ _ eq_refl) as [Hx Hl]. destruct (IHr _ _ eq_refl) as [Hy Hr].
+    assert (Hev : forall c, tree_eval_ctx (fun ctx o => leaf_value e sub ctx op_NoOp o) (apply_op e) c (Node op l r)
+                  = apply_op e op (enc ux x) (enc uy y)).
+    { intros c. cbn [tree_eval_ctx]. rewrite Hl, Hr. reflexivity. }
+    destruct (in63b x && in63b y) eqn:En.
+    + (* both operands narrow: every operator of the fragment *)
+      rewrite andb_false_r in H. apply andb_true_iff in En. destruct En as [Enx Eny].
+      destruct (node_exact_narrow e op x ux y uy z u _ Hev (okw_narrow _ _ Hx Enx) (okw_narrow _ _ Hy Eny) H) as [Hok Hv].
+      split; [apply okv_okw; exact Hok|exact Hv].
+    + destruct (is_arith op) eqn:Ea; [discriminate H|]. cbn [andb] in H.
+      destruct (node_exact_wide e op x ux y uy z u Ea Hx Hy H) as [Hok Hv].
+      split; [exact Hok|]. intros c. rewrite Hev. exact Hv.
 Qed.
 
 (* with the precedence theorem: the flat list of an integer expression
@@ -513,3 +622,14 @@ Qed.
 (* non-vacuity: the tree of 10 - 2 * 3 ^ 2 + 5 has the exact value -3, kind Integer *)
 Example ex_d1_zspec : exists t, std_tree ex_d1 = Some t /\ zspec t = Some (-3, false).
 Proof. eexists. split; [exact ex_d1_tree|]. vm_compute. reflexivity. Qed.
+
+(* non-vacuity of the wide domain: 18446744073709551615 > 1 is 1, 18446744073709551615 == -1 is 0 *)
+Example ex_wide_gt : zspec (Node op_Greater (Leaf (ONum (QNat 18446744073709551615))) (Leaf (ONum (QNat 1)))) = Some (1, true).
+Proof. vm_compute. reflexivity. Qed.
+Example ex_wide_eq : zspec (Node op_Equal (Leaf (ONum (QNat 18446744073709551615))) (Leaf (ONum (QInt 18446744073709551615)))) = Some (0, true).
+Proof. vm_compute. reflexivity. Qed.
+Example ex_wide_eval :
+  apply_op [] op_Greater (QNat 18446744073709551615) (QNat 1) = Ok (QNat 1) /\
+  apply_op [] op_Equal (QNat 18446744073709551615) (QInt 18446744073709551615) = Ok (QNat 0) /\
+  apply_op [] op_Less (QInt 18446744073709551615) (QNat 9223372036854775808) = Ok (QNat 1).
+Proof. vm_compute. repeat split. Qed.
